@@ -625,7 +625,7 @@ fn run_zeroize(cfg: &Value) -> Value {
             drop(mk);
             zscan::disarm()
         },
-        "statement" | "prove" | "verify_recover" => {
+        "statement" | "prove" | "verify_recover" | "verify_recover_fail" | "verify_recover_fail_batch" => {
             let pc = ristretto::create_pedersen_gens_with_extension_degree(ext_degree(x));
             let params = RangeParameters::init(n, m, pc).unwrap();
             let seeded = cfg["seeded"].as_bool().unwrap_or(m == 1);
@@ -658,6 +658,29 @@ fn run_zeroize(cfg: &Value) -> Value {
                     let r = zscan::disarm();
                     assert!(p.is_ok());
                     r
+                } else if what == "verify_recover_fail" || what == "verify_recover_fail_batch" {
+                    // a recovering verification that FAILS after the mask was recovered: r1 does not enter the challenges or the recovery,
+                    // so the true mask is computed before the proof is refused (alone, and as the later member of a batch after a good one)
+                    let p = RistrettoRangeProof::prove_with_rng(&mut t, &st, &w, &mut rng).unwrap();
+                    let mut bytes = p.to_bytes();
+                    let off = 1 + 32 * (x + 3);
+                    let mut b = [0u8; 32];
+                    b.copy_from_slice(&bytes[off..off + 32]);
+                    let r1 = Option::<Scalar>::from(Scalar::from_canonical_bytes(b)).unwrap() + Scalar::ONE;
+                    bytes[off..off + 32].copy_from_slice(r1.as_bytes());
+                    let bad = RistrettoRangeProof::from_bytes(&bytes).unwrap();
+                    let (mut ts, sts, ps) = if what == "verify_recover_fail" {
+                        (vec![Transcript::new(b"symx context")], vec![st.clone()], vec![bad])
+                    } else {
+                        (vec![Transcript::new(b"symx context"), Transcript::new(b"symx context")], vec![st.clone(), st.clone()], vec![p, bad])
+                    };
+                    zscan::arm();
+                    let r = RangeProof::verify_batch(&mut ts, &sts, &ps, VerifyAction::RecoverAndVerify);
+                    let failed = r.is_err();
+                    drop(r);
+                    let res = zscan::disarm();
+                    assert!(failed);
+                    res
                 } else {
                     let p = RistrettoRangeProof::prove_with_rng(&mut t, &st, &w, &mut rng).unwrap();
                     let mut ts = vec![Transcript::new(b"symx context")];
